@@ -33,10 +33,10 @@ def main():
     ap.add_argument("--par", type=int, default=3)
     ap.add_argument("--jobs", type=int, default=4)
     a = ap.parse_args()
-    ids = a.ids or sorted(os.path.basename(p)[:-3].upper() for p in glob.glob(os.path.join(ROOT, "pv", "checks", "c[0-9]*.py")))
+    ids = a.ids or sorted(os.path.basename(p)[:-3].upper() for p in glob.glob(os.path.join(ROOT, "pv", "checks", "c[0-9]*.py")) if os.path.basename(p)[1:-3].isdigit())
     bad = 0
     with ThreadPoolExecutor(max_workers=a.par) as ex:
-        futs = [ex.submit(one, pid, a.tier, s, a.jobs) for pid in ids for s in a.seeds]
+        futs = [ex.submit(one, pid, a.tier, s, a.jobs) for s in a.seeds for pid in ids]  # seed-major: one check never runs twice at once
         for f in futs:
             pid, seed, rc, dt, head, lines, err = f.result()
             flag = "ok " if rc == 0 else "BAD"
